@@ -1,1 +1,40 @@
-From Morph Require Import Base.UStr.
+(* C09 — the surface syntax of a mapping never changes its meaning.  Statements only.
+   The abstract syntax of Model/Mapping.v already identifies vocabularies and constant shortcuts (they are spellings that the
+   correspondence check renders and compares on the implementation); what remains inside the model are the three
+   factorings the property names: classes, graph maps, multi-valued predicate-object maps. *)
+From Coq Require Import String.
+From Morph Require Import Base.UStr Gen.Tables Model.Terms Model.Data Model.Engine Model.Mapping Proofs.NormaliseP.
+Local Open Scope N_scope.
+
+(* rr:class against explicit rdf:type predicate-object maps: the same rule table, for every document *)
+Theorem classes_as_type_poms : forall d, normalise (map class_to_pom d) = normalise d.
+Proof. exact normalise_classes_as_poms. Qed.
+Print Assumptions classes_as_type_poms.
+
+(* graph maps on the subject map against the same graph maps repeated on every predicate-object map *)
+Theorem subject_graphs_on_every_pom : forall d, normalise (map graphs_on_poms d) = normalise d.
+Proof. exact normalise_graphs_on_poms. Qed.
+Print Assumptions subject_graphs_on_every_pom.
+
+(* the fully explicit spelling (classes as maps, graphs on every map, rml:defaultGraph written out) *)
+Theorem explicit_spelling : forall d, normalise (prepare d) = normalise d.
+Proof. exact normalise_explicit. Qed.
+Print Assumptions explicit_spelling.
+
+(* multi-valued against split predicate-object maps: the same rules in the same order, the same rejections; for every
+   document whose maps do not mix referencing and ordinary object maps in one predicate-object map *)
+Theorem multi_valued_as_split : forall d, all_unmixed d = true -> normalise (map split_tm d) = normalise d.
+Proof. exact normalise_split. Qed.
+Print Assumptions multi_valued_as_split.
+
+(* non-vacuity: a document with a class, a subject graph map and a 2 x 2 predicate-object map *)
+Definition ex_tm (k : mkind) (v : string) : tmap := mk_tmap k (u v) CkIri None.
+Definition ex_doc : document :=
+  [{| t_id := u "#TM"; t_src := u "S"; t_nonasserted := false; t_subj := ex_tm KTempl "http://e/{id}"; t_sjoins := [];
+      t_classes := [u "http://e/C"]; t_sgraphs := [ex_tm KTempl "http://e/g/{id}"];
+      t_poms := [{| p_preds := [ex_tm KConst "http://e/p1"; ex_tm KConst "http://e/p2"];
+                    p_objs := [plain_obj (ex_tm KRef "a"); plain_obj (ex_tm KTempl "http://e/o/{b}")]; p_graphs := [] |}] |}].
+Example ex_doc_unmixed : all_unmixed ex_doc = true /\ map split_tm ex_doc <> ex_doc /\
+  (exists rs, normalise ex_doc = Ok rs /\ length rs = 5%nat).
+Proof. split; [reflexivity|split; [discriminate|]]. vm_compute. eexists. split; reflexivity. Qed.
+Print Assumptions ex_doc_unmixed.
